@@ -473,7 +473,7 @@ def crowd(parent, kind, names):
             mk(nm)
 
 
-def run_dims11(r):
+def run_dims11(r, prop="C03"):
     """an array of rank 11: the descriptors are numbered 1..11 (two-digit numbers sort before '2' as text)"""
     env.install_seams()
     env.reset_execution()
@@ -501,11 +501,11 @@ def run_dims11(r):
             byidx = [(type(da.dimensions[i]).__name__, da.dimensions[i].index) for i in range(11)]
             r.transitions += 3
             if len(da.dimensions) != 11 or got != exp or byidx != exp:
-                r.viol("C03|data_array.dimensions|rank-11|%s|order-or-index" % stage,
+                r.viol("%s|data_array.dimensions|rank-11|%s|order-or-index" % (prop, stage),
                        "dimension descriptors of a rank-11 array: iteration %r, by position %r, expected %r" % (got, byidx, exp), {})
                 return
             if dims[10].ticks != (10.0,) if kinds[10] == "RangeDimension" else False:
-                r.viol("C03|data_array.dimensions|rank-11|%s|content" % stage, "11th descriptor has the wrong content", {})
+                r.viol("%s|data_array.dimensions|rank-11|%s|content" % (prop, stage), "11th descriptor has the wrong content", {})
                 return
             f.close()
             f = nix.File.open(path, nix.FileMode.ReadWrite)
